@@ -541,3 +541,31 @@ Theorem C12_poll_sweep_rel : forall (A : Type) (ops : app_ops A) (f : fdl) (now 
   poll ops f now pin apps = Ok (f', o, apps', calls) -> sw_rel f f' [] calls (tx o).
 Proof. exact poll_sweep_rel. Qed.
 Print Assumptions C12_poll_sweep_rel.
+
+(* ORACLE SOUNDNESS, the liveness rule (Proofs/C12OracleSound.v, part 3).  R12_gap_wait_never_ends - "while the bus
+   brings nothing new, a wait for a GAP reply (AwaitStatusResponse, the post-claim scan) ends at the first poll
+   later than one slot time after the last instant at which the station can have seen anything happen" - is
+   never reported on a transcript of the MODEL.  The proof tracks last_bus_activity and pending_bytes EXACTLY in the
+   waiting states (C12Proofs-style case analysis of poll: await_poll_exact; every entry into a waiting state is a
+   transmission that leaves pending_bytes >= the bytes in the buffer: entry_plb) and keeps the simulation LW:
+   last_bus_activity <= l_ref of the monitor, the predicted end of the last transmission <= last_bus_activity,
+   last_bus_activity is that end or not later than the previous poll, and pending_bytes = buffer length unless the
+   monitor's flag l_spur announces a spurious growth.  Under LW a poll that the monitor calls quiet, expired and
+   inactive is a poll in which the model looks at the buffer, sees no activity and finds the slot timer run out -
+   so it leaves the waiting state (or transmits the next request). *)
+Theorem C12_oracle_sound_gap_wait : forall (A : Type) (ops : app_ops A) (p : params),
+  apps_total A ops -> builder_valid p -> app_sends_data A ops ->
+  forall (apps : list A) (ins : list minput), ins_ok 0 ins ->
+  forall k r, In (k, r) (monitor p (length apps) (model_transcript A ops p apps ins)) ->
+  r <> R12_gap_wait_never_ends.
+Proof. exact c12_oracle_sound_gap_wait. Qed.
+Print Assumptions C12_oracle_sound_gap_wait.
+
+(* ORACLE SOUNDNESS OF C12, COMPLETE: for applications that transmit request telegrams NO rule of C12 is reported on
+   a transcript of the model (all eleven executable rules R12_* of Model/FdlOracle.v). *)
+Theorem C12_oracle_sound : forall (A : Type) (ops : app_ops A) (p : params),
+  apps_total A ops -> builder_valid p -> app_sends_data A ops ->
+  forall (apps : list A) (ins : list minput), app_sends_requests A ops -> ins_ok 0 ins ->
+  forall k r, In (k, r) (monitor p (length apps) (model_transcript A ops p apps ins)) -> rule_prop r <> PC12.
+Proof. exact c12_oracle_sound. Qed.
+Print Assumptions C12_oracle_sound.
